@@ -920,6 +920,16 @@ class Paths:
                         return None
                     out.append((facts, [], val))
                 return out
+            if name == "zip" and len(args) == 2 and is_opt:
+                # Option::zip: Some((a, b)) iff both are Some
+                out = []
+                for facts, pay, v in self._split(x, kind):
+                    if v != "Some":
+                        out.append((facts, [], NONE))
+                        continue
+                    for f2, p2, v2 in self._split(A(1), kind):
+                        out.append((facts + f2, [], some(("agg", "tuple", (pay, p2))) if v2 == "Some" else NONE))
+                return out
             if name in ("is_some", "is_none", "is_ok", "is_err") and len(args) == 1:
                 want = {"is_some": "Some", "is_none": "None", "is_ok": "Ok", "is_err": "Err"}[name]
                 return [(facts, [], ("const", v == want)) for facts, pay, v in self._split(x, kind)]
